@@ -91,6 +91,14 @@ template <size_t N, size_t A> struct alignas(A) Evt<N, A, 4> : TrackedBase<N, A,
     Evt(Evt&& o) noexcept : TrackedBase<N, A, 4>(static_cast<const TrackedBase<N, A, 4>&>(o)) {}
 };
 
+// A second tracked event type of the *other* storage class (inline <-> heap in backmp11's pool), so that pools and queues
+// hold neighbours with different control blocks / destructors: erasing from the middle move-assigns across types.
+template <class E> struct AltOf;
+template <size_t N, size_t A, int K> struct AltOf<Evt<N, A, K>> {
+    static const bool heapish = (sizeof(Evt<N, A, K>) > 56) || K == 1 || K == 3;
+    typedef typename std::conditional<heapish, Evt<8, 8, 2>, Evt<200, 8, 1>>::type type;
+};
+
 // ------------------------------------------------------------------------------------------------ machine
 struct ToHold {}; struct ToIdle {}; struct ToADef {}; struct ToSub {}; struct Leave {}; struct Kick { int serial; };
 static std::vector<int> g_dispatched;       // serials whose action ran, in order
@@ -121,23 +129,28 @@ struct st_cfg : msm::backmp11::state_machine_config {
 #endif
 
 template <class E> struct Sub_ : msm::front::state_machine_def<Sub_<E>> {
+    typedef typename AltOf<E>::type Alt;
     struct In : msm::front::state<> { typedef mpl::vector<E> deferred_events; };
     struct In2 : msm::front::state<> {};
     typedef In initial_state;
     struct transition_table : mpl::vector<
         Row<In, ToIdle, In2, none, none>,
         Row<In2, E, none, Verify<E>, none>,
+        Row<In, Alt, none, Verify<Alt>, none>,
         Row<In2, ToHold, In, none, none> > {};
     template <class F, class Ev> void no_transition(Ev const&, F&, int) {}
 };
 template <class E> struct Front_ : msm::front::state_machine_def<Front_<E>> {
     typedef ST_BACK(Sub_<E>) Sub;
+    typedef typename AltOf<E>::type Alt;
     struct Idle : msm::front::state<> {};
     struct Hold : msm::front::state<> { typedef mpl::vector<E> deferred_events; };
     struct ADef : msm::front::state<> {};
     typedef Idle initial_state;
     struct transition_table : mpl::vector<
         Row<Idle, E, none, Verify<E>, none>,
+        Row<Idle, Alt, none, Verify<Alt>, none>,
+        Row<Hold, Alt, none, Verify<Alt>, none>,
         Row<Idle, Kick, none, KickAct<E>, none>,
         Row<Idle, ToHold, Hold, none, none>,
         Row<Hold, ToIdle, Idle, none, none>,
@@ -154,8 +167,8 @@ template <class E> struct Front_ : msm::front::state_machine_def<Front_<E>> {
 #define ST_GEN(E)
 #endif
 
-enum Op { ENQ, PE, KICK, TOHOLD, TOIDLE, TOADEF, TOSUB, LEAVE, DRAIN, SINGLE, COPYC, COPYA, MOVEC, MOVEA, CLEAR, STOP, NOPS };
-static const char* OPN[] = {"enqueue", "process", "kick", "toHold", "toIdle", "toADef", "toSub", "leave", "drain", "single", "copy-construct", "copy-assign",
+enum Op { ENQ, ENQALT, ENQIDLE, PE, KICK, TOHOLD, TOIDLE, TOADEF, TOSUB, LEAVE, DRAIN, SINGLE, COPYC, COPYA, MOVEC, MOVEA, CLEAR, STOP, NOPS };
+static const char* OPN[] = {"enqueue", "enqueue-alt", "enqueue-toIdle", "process", "kick", "toHold", "toIdle", "toADef", "toSub", "leave", "drain", "single", "copy-construct", "copy-assign",
                             "move-construct", "move-assign", "clear", "stop"};
 
 template <class SM> void prepare(SM& m) {
@@ -170,6 +183,7 @@ template <class SM> void prepare(SM& m) {
 
 template <class E> struct Runner {
     typedef ST_BACK(Front_<E>) SM;
+    typedef typename AltOf<E>::type Alt;
     static bool op_ok(int op) {
 #if ST_BACKEND <= 2
         if (op == MOVEC || op == MOVEA) return false;
@@ -191,6 +205,8 @@ template <class E> struct Runner {
                 if (stopped && op != COPYC && op != COPYA) continue;
                 switch (op) {
                 case ENQ: cur->enqueue_event(E(serial++)); break;
+                case ENQALT: cur->enqueue_event(Alt(serial++)); break;      // other storage class, handled where E is deferred
+                case ENQIDLE: cur->enqueue_event(ToIdle()); break;          // trivial empty event between tracked ones; releases the deferred ones
                 case PE: cur->process_event(E(serial++)); break;
                 case KICK: cur->process_event(Kick{serial++}); break;
                 case TOHOLD: cur->process_event(ToHold()); break;
